@@ -12,37 +12,56 @@ NOTE_COMMON = ('Trusted: TLC 1.8.0 and the CommunityModules Json reader; the con
 
 # what was added to a check after its first version (seed rounds 2 and 3, DESIGN 14.5 / 14.6); appended to the claim text
 ADDENDA = {
-    'C01': '  Datetime kinds carry sub-second values (awkward binary fractions, random microseconds).',
-    'C03': '  Fragments with more distinct values than Size.max_strings_in_group whose class is widened only by late values.',
+    'C19': '  Classes that are plain unittest.TestCase and only borrow @tag.',
+    'C07': '  Every string column is also replayed as a categorical with unused categories.',
+    'C02': '  The fourth expression of every string pool is a prefix pattern (no trailing $).',
+    'C01': '  Datetime kinds carry sub-second values (awkward binary fractions, random microseconds).'
+           '  Field names that differ only in case; categoricals with unused categories.',
+    'C03': '  Fragments with more distinct values than Size.max_strings_in_group whose class is widened only by late values.'
+           '  Under strip the strings as supplied must match; whitespace-only and empty examples; numeric characters that are not digits; a majority shape plus rare members with extra-letter punctuation under sampling.',
     'C04': '  Identical content (same bytes on both sides) must pass at all three entry points under LF / CR LF / no final newline / '
-           'blank or whitespace-only last line / other characters str.splitlines treats as line ends.',
+           'blank or whitespace-only last line / other characters str.splitlines treats as line ends.'
+           '  One ignore marker reads differently as a regular expression (substrings are literal).',
     'C05': '  Non-default option sets of the model rows are also run through assertDataFramesEqual, parquet-reference and on-disk entry '
            'points; rich pairs are compared against CSV and parquet reference files (never an internal error; a changed value, row or '
-           'column still fails).',
+           'column still fails).'
+           '  Mutations relabel (other row labels: pass), rowswap (rows reordered with their labels: fail), emptynull (empty string against null: fail).',
     'C06': '  Quick tier adds boolean columns of 5 cells (duplicates next to several nulls); 40 % of sessions use a frame whose index is a '
-           'permutation of 0..n-1, records being identified by label.',
+           'permutation of 0..n-1, records being identified by label.'
+           '  Clause OutputCountsAreFalseFlags on the returned frame and on in-place columns; field names that extend another field\'s name.',
     'C08': '  Rich sessions add "a string no discovered expression matches", chosen after discovery against the discovered list '
-           '(also for all-null columns and empty tables, whose list is empty).',
-    'C09': '  An unparsable to_json of a discovered set is a ValidJson violation (never a machinery failure).',
+           '(also for all-null columns and empty tables, whose list is empty).'
+           '  Datetime columns with a time of day (breaking row on the same calendar day); rex perturbation in the other letter case.',
+    'C09': '  An unparsable to_json of a discovered set is a ValidJson violation (never a machinery failure).'
+           '  Clauses CallerDictionaryLeftAlone, SameDictionarySameResult, MetadataPreserved.',
     'C10': '  RefLoc.tla models class-level and per-instance reference locations with relative reference names; 120/600 sessions with up to '
            'three ReferenceTest instances are judged by Trace_RefLoc, which reconstructs the location tables itself (an assertion writes only '
-           'the file its own instance and kind resolve to).',
+           'the file its own instance and kind resolve to).'
+           '  Strip options on text assertions with blank-line contents; kind lists that end in a comma.',
     'C11': '  Outputs may mention $TMPDIR (expanded by the command at run time), stderr carries machine tokens, and two outputs may have names '
-           'that collide as identifiers; generated tests are located by parsing the script.  Known finding D35 (-n 1 with $TMPDIR mentioned).',
+           'that collide as identifiers; generated tests are located by parsing the script.  Known finding D35 (-n 1 with $TMPDIR mentioned).'
+           '  The same base name in two directories; command text with backslashes, quotes, % and braces; an earlier generation in the same process; an output named ~/... under $HOME.',
     'C12': '  Once per session a whole line mentioning the machine is removed from / added to a stream or text file; every third session has a '
-           'first stdout line with a date decades away and a forced character edit outside the date.',
+           'first stdout line with a date decades away and a forced character edit outside the date.'
+           '  Exit status between two failure codes; binary outputs of 4096 / 8192 bytes with a byte appended; a character outside ASCII added to an ASCII text file.  Known finding D19 (unknown-extension binary read as text: line-separator bytes).',
     'C13': '  Equally frequent shapes with fewer patterns allowed than shapes (ties at the pruning cut, tag-neutral); dictionary keys with '
-           'multiplicity 0.',
-    'C14': '  pandas forms: Series, categorical Series (with unused categories), list of two Series through pdextract.',
+           'multiplicity 0.'
+           '  Tag neutrality on the strings as supplied under strip; strings of 30-48 alphanumeric pairs (capture-group budget).',
+    'C14': '  pandas forms: Series, categorical Series (with unused categories), list of two Series through pdextract.'
+           '  Counter / defaultdict inputs; option full_escape; the same call as the first call of a fresh interpreter; repeats next to the sampling thresholds.',
     'C15': '  A second object is made before its temporary directory exists; the system temporary directory is watched.  The post-processed '
-           'pair is demanded when an exclusion had an effect (TextCompare.ExclusionsHadEffect).',
+           'pair is demanded when an exclusion had an effect (TextCompare.ExclusionsHadEffect).'
+           '  An actual file kept in the temporary directory under the library\'s own actual-<reference> name must still hold the actual content.',
     'C16': '  LoadDf.tla: where load_df takes the description of a CSV file from (explicit, the CSVW description itself, the associated file '
            'among 11 candidate names, none; ignore_apparent_metadata); all 2048 candidate subsets and 64 cases x 4 file names on real files '
-           '(found and repaired D33, D34).  A second boolean column with its own spelling.',
+           '(found and repaired D33, D34).  A second boolean column with its own spelling.'
+           '  C1 control characters and # in string cells; the same file names rewritten with other contents.',
     'C17': '  The perturbed data holds a value beyond the discovered maximum but inside the tolerance of --epsilon; detect to standard output '
-           'must equal, line for line, what the same command writes to a named file.',
+           'must equal, line for line, what the same command writes to a named file.'
+           '  A boolean field delivered as 0/1 integers; every contradictory pair of detect flags; value-taking flags before the input.',
     'C18': '  incremental_coverage() must be the full listing reduced to the newly explained counts; the module-level functions are also '
-           'called on hand-made overlapping expressions (300/1500 cases).',
+           'called on hand-made overlapping expressions (300/1500 cases).'
+           '  Byte-string examples with an encoding, an empty one among them.',
 }
 
 
